@@ -72,11 +72,18 @@ def build(rng, tn, kind):
         terms = {k: (sympy.Rational(str(F(v))) if rng.random() < 0.7 else v) for k, v in terms.items()}
         build.sympy_numbers = True
     build.named = False
+    build.tiny = False
+    if not build.narrow and not build.sympy_numbers and rng.random() < 0.1:
+        # the same model in very small units (an exact power-of-two rescaling): a coefficient of 1e-12 or 1e-120 is a coefficient,
+        # not rounding residue
+        sc_ = rng.choice([2.0 ** -34, 2.0 ** -60, 2.0 ** -400])
+        terms = {k: v * sc_ for k, v in terms.items()}
+        build.tiny = True
     if tn == "dict":
         m = dict(terms)
     elif tn == "DictArithmetic":
         m = L.utils.DictArithmetic(terms)
-    elif not mat and rng.random() < 0.1 and not build.narrow and not build.sympy_numbers:
+    elif not mat and rng.random() < 0.1 and not build.narrow and not build.sympy_numbers and not build.tiny:
         # a variable object (create_var / boolean_var / spin_var: a one-term model that carries its name) edited IN PLACE -- it
         # keeps the name while it stops being "just the variable": rescaled, and possibly grown by further terms
         T = getattr(L, tn)
@@ -186,6 +193,8 @@ def case(ctx, rng, idx):
         ctx.cat("narrow-numpy-coefficients")
     if getattr(build, "named", False):
         ctx.cat("named-variable-edited-in-place")
+    if getattr(build, "tiny", False):
+        ctx.cat("tiny-scale")
     # plain dicts / DictArithmetic have no squashing: keys are sets of distinct labels, 'kind' only names the algebra
     p = ref.from_raw("bool", dict(m)) if tn in ("dict", "DictArithmetic") else ref.from_raw(kind, dict(m))
     fn = rng.choice(["subvalue", "subgraph", "normalize"])
@@ -196,7 +205,7 @@ def case(ctx, rng, idx):
     if fn == "subvalue":
         k = rng.choice([0, 1, 2, len(labs), len(labs)])
         chosen = rng.sample(labs, min(k, len(labs)))
-        symbolic = rng.random() < 0.3 and not tn.endswith("Matrix") and not build.narrow
+        symbolic = rng.random() < 0.3 and not tn.endswith("Matrix") and not build.narrow and not build.tiny
         syms = {}
         if symbolic:
             ctx.cat("symbolic-values")
@@ -349,7 +358,7 @@ def case(ctx, rng, idx):
             ctx.nontrivial((fn, tn, sorted(snap.items(), key=repr), val, method))
     ctx.sample({"function": fn, "type": tn, "terms": snap, "args": {k: v for k, v in w.items() if k not in ("function", "type", "terms")},
                 "result": dict(r)}, limit=3)
-    if fn in ("subvalue", "subgraph") and tn != "dict" and not build.narrow and not build.sympy_numbers and rng.random() < 0.3:
+    if fn in ("subvalue", "subgraph") and tn != "dict" and not build.narrow and not build.sympy_numbers and not build.tiny and rng.random() < 0.3:
         # second look: the same model object is edited in place (one term removed, another one entered: the number of terms
         # stays, the terms do not; or a coefficient changed) and asked the same question again
         deg_ = 2 if tn in ("QUBO", "QUSO", "QUBOMatrix", "QUSOMatrix") else 4
